@@ -506,7 +506,10 @@ pub fn gen_expr(r: &mut Rng, cfg: &GenCfg) -> OpeningHoursExpression {
         4..=6 => 1,
         _ => r.below(cfg.max_rules as u64) as usize,
     };
-    let mut rules: Vec<RuleSequence> = (0..n.min(cfg.max_rules)).map(|i| gen_rule(r, cfg, i == 0)).collect();
+    // a few long expressions (5..9 rules) whatever the configured bound: some code only matters
+    // when many rules interact (normalization paving, rule combination order)
+    let n = if cfg.max_rules >= 3 && r.chance(3) { 5 + r.below(5) as usize } else { n.min(cfg.max_rules) };
+    let mut rules: Vec<RuleSequence> = (0..n).map(|i| gen_rule(r, cfg, i == 0)).collect();
     for rule in rules.iter_mut().skip(1) {
         // ", easter" after a month/date selector is read by the grammar as one more entry of that
         // selector (the Easter token may start with a space): no spelling denotes a new rule there
